@@ -1,11 +1,14 @@
 package checks
 
 import (
+	"bytes"
 	"encoding/json"
 	"fmt"
 	"strings"
 	"sync/atomic"
 	"time"
+
+	"github.com/alttpo/snes/emulator"
 
 	"verif/internal/par"
 	"verif/internal/ref65816"
@@ -453,65 +456,202 @@ func c14StepCheck(x *cpuCtx, c *cpuCase) (sig, what string) {
 
 // ---- RunUntil with a Logger: non-perturbation and one truthful line per instruction
 
+// c14Logger is the trace logger handed to the System under test. When a line arrives it is judged at
+// once against the CPU state and memory of that very moment (the instruction about to execute), and the
+// arrival is recorded in the event list next to the instruction fetches reported by the program-counter
+// callbacks.
+type c14Event struct {
+	line bool   // a trace line arrived (else: an instruction was fetched)
+	pc   uint32 // bank:address of the instruction concerned
+	bad  string // line only: what is untruthful about it ("" = truthful)
+	text string
+}
+
+type c14Logger struct {
+	sys       *emulator.System
+	events    *[]c14Event
+	rc        bool // offers Reserve/Commit
+	reserved  []int
+	committed int
+}
+
+func (l *c14Logger) Write(p []byte) (int, error) {
+	c := &l.sys.CPU
+	pre := ref65816.State{PC: c.PC, K: c.RK, P: c.Flags(), S: c.SP, D: c.RD, DBR: c.RDBR}
+	if c.M == 1 {
+		pre.C = uint16(c.RAh)<<8 | uint16(c.RAl)
+	} else {
+		pre.C = c.RA
+	}
+	if c.X == 1 {
+		pre.X, pre.Y = uint16(c.RXl), uint16(c.RYl)
+	} else {
+		pre.X, pre.Y = c.RX, c.RY
+	}
+	ev := c14Event{line: true, pc: uint32(c.RK)<<16 | uint32(c.PC), text: strings.TrimRight(string(p), "\n")}
+	if kind, wt := checkTraceLine(string(p), pre, func(a uint32) byte { return l.sys.Bus.EaRead(a) }, true); kind != "" {
+		ev.bad = kind + ": " + wt
+	}
+	*l.events = append(*l.events, ev)
+	return len(p), nil
+}
+
+type c14RCLogger struct{ c14Logger }
+
+func (l *c14RCLogger) Reserve(n int) { l.reserved = append(l.reserved, n) }
+func (l *c14RCLogger) Commit()       { l.committed++ }
+
+// c14RunCheck: the same RunUntil call on two Systems prepared alike, one with a logger and one without.
+// Non-perturbation is the comparison of the two outcomes; truthfulness is judged line by line when the
+// line is written; every instruction fetched at a watched address must have been announced by exactly one
+// line. How RunUntil decides to stop (budget, target) is C12's subject and plays no role here.
 func c14RunCheck(w *c12World, rr c12Run) (sig, what string) {
-	if sig, what = c12Exec(w, rr); sig != "" || w.skipped {
-		return
+	code, _, err := c12Assemble(rr.Prog, rr.Start)
+	if err != nil {
+		return "bad-case", err.Error()
 	}
-	var log string
-	switch l := w.sut.Logger.(type) {
-	case *plainWriter:
-		log = l.buf.String()
-	case *rcWriter:
-		log = l.buf.String()
+	if w.skipped {
+		for _, s := range []*emulator.System{w.sut, w.twin} {
+			for i := range s.ROM {
+				s.ROM[i] = 0
+			}
+			for i := range s.SRAM {
+				s.SRAM[i] = 0
+			}
+		}
+		w.skipped = false
 	}
-	if w.logLen1 <= len(log) {
-		log = log[:w.logLen1] // the scenario ends with a second RunUntil call (C12); its lines are not judged here
-	}
-	lines := strings.Split(strings.TrimRight(log, "\n"), "\n")
-	if log == "" {
-		lines = nil
-	}
-	// replay the twin loop once more to obtain the pre-state of every executed instruction
+	c12Prepare(w.sut, rr)
 	c12Prepare(w.twin, rr)
-	var consumed uint64
-	i := 0
-	peek := func(a uint32) byte { return w.twin.Bus.EaRead(a) }
 	desc := func() string {
 		return fmt.Sprintf("program %v at $%06x target $%06x budget %d logger %d", rr.Prog, rr.Start, rr.Target, rr.Budget, rr.Logger)
 	}
-	for consumed < rr.Budget {
-		if i >= len(lines) {
-			return "unexplained:trace-missing-line", fmt.Sprintf("trace has %d lines, instruction #%d at $%06x has none | %s", len(lines), i, w.twin.GetPC(), desc())
+	limit := 1100
+	if rr.Budget < 1000 {
+		limit = int(rr.Budget) + 4
+	}
+	watched := map[uint32]bool{}
+	for a := rr.Start - 2; a < rr.Start+uint32(len(code))+4; a++ {
+		watched[a] = true
+	}
+	for a := uint32(0); a < 8; a++ {
+		watched[a] = true
+	}
+	run := func(s *emulator.System, events *[]c14Event) (got bool, pn interface{}) {
+		calls := 0
+		cb := map[uint32]func(){}
+		for a := range watched {
+			a := a
+			cb[a] = func() {
+				if calls++; calls > limit {
+					panic(c12Sentinel{})
+				}
+				if events != nil {
+					*events = append(*events, c14Event{pc: a})
+				}
+			}
 		}
-		c := &w.twin.CPU
-		pre := ref65816.State{PC: c.PC, K: c.RK, P: c.Flags(), S: c.SP, D: c.RD, DBR: c.RDBR}
-		if c.M == 1 {
-			pre.C = uint16(c.RAh)<<8 | uint16(c.RAl)
-		} else {
-			pre.C = c.RA
+		s.CPU.OnPC = cb
+		c12WatchMu.Lock()
+		w.busy, w.started, w.unlogged = &rr, time.Now(), events == nil
+		c12WatchMu.Unlock()
+		func() {
+			defer func() { pn = recover() }()
+			got = s.RunUntil(rr.Target, rr.Budget)
+		}()
+		c12WatchMu.Lock()
+		w.busy = nil
+		c12WatchMu.Unlock()
+		return
+	}
+	// without a logger
+	wantRes, pnT := run(w.twin, nil)
+	if pnT != nil {
+		// the unlogged run does not come back within the guard (an effectively unlimited budget, a target that
+		// is not reached): nothing to compare; whether RunUntil should have stopped is C12's question
+		w.skipped = true
+		return "", ""
+	}
+	// with a logger
+	var events []c14Event
+	var lg *c14Logger
+	if rr.Logger == 2 {
+		l := &c14RCLogger{c14Logger{sys: w.sut, events: &events, rc: true}}
+		lg = &l.c14Logger
+		w.sut.Logger = l
+	} else {
+		lg = &c14Logger{sys: w.sut, events: &events}
+		w.sut.Logger = lg
+	}
+	gotRes, pnS := run(w.sut, &events)
+	if pnS != nil {
+		w.skipped = true
+		if _, ok := pnS.(c12Sentinel); ok {
+			return "unexplained:logger-perturbs-execution", fmt.Sprintf("with a logger RunUntil does not come back (more than %d instructions), without one it does | %s", limit, desc())
 		}
-		if c.X == 1 {
-			pre.X, pre.Y = uint16(c.RXl), uint16(c.RYl)
-		} else {
-			pre.X, pre.Y = c.RX, c.RY
+		return "unexplained:logger-perturbs-execution", fmt.Sprintf("with a logger RunUntil panics: %v; without one it returns | %s", pnS, desc())
+	}
+	if gotRes != wantRes {
+		w.skipped = true
+		return "unexplained:logger-perturbs-execution", fmt.Sprintf("RunUntil returns %v with a logger, %v without | %s", gotRes, wantRes, desc())
+	}
+	if a, b := c12Snapshot(w.sut), c12Snapshot(w.twin); a != b {
+		w.skipped = true
+		return "unexplained:logger-perturbs-execution", fmt.Sprintf("final state with a logger %v, without %v | %s", a, b, desc())
+	}
+	if !bytes.Equal(w.sut.WRAM[:], w.twin.WRAM[:]) || !bytes.Equal(w.sut.SRAM[:], w.twin.SRAM[:]) || !bytes.Equal(w.sut.ROM[:0x10000], w.twin.ROM[:0x10000]) {
+		w.skipped = true
+		return "unexplained:logger-perturbs-execution", "final memory with a logger differs from the run without one | " + desc()
+	}
+	for _, n := range lg.reserved {
+		if n < 0 {
+			return "unexplained:logger-reserve-negative", fmt.Sprintf("the logger was asked to Reserve(%d) | %s", n, desc())
 		}
-		if kind, wt := checkTraceLine(lines[i], pre, peek, true); kind != "" {
-			return "unexplained:trace-" + kind + ":RunUntil", fmt.Sprintf("trace line %d %q: %s | %s", i, lines[i], wt, desc())
+	}
+	if lg.rc && (lg.committed != 1 || len(lg.reserved) != 1) {
+		return "unexplained:logger-reserve-commit", fmt.Sprintf("Reserve called %v times, Commit %d times, want once each | %s", lg.reserved, lg.committed, desc())
+	}
+	// lines: each was judged truthful or not when it was written. One line per instruction: re-execute the
+	// program by hand on the (re-prepared) twin, one Step per line -- every line must stand at the
+	// instruction the hand execution is about to execute, and the logged run must have ended either after
+	// all of them or with the last announced instruction not executed (RunUntil announces, then decides).
+	var lines []c14Event
+	for _, ev := range events {
+		if ev.line {
+			lines = append(lines, ev)
 		}
-		i++
-		if w.twin.GetPC() == rr.Target {
-			break
+	}
+	final := c12Snapshot(w.sut)
+	c12Prepare(w.twin, rr)
+	before := c12Snapshot(w.twin)
+	for i, ev := range lines {
+		if ev.bad != "" {
+			return "unexplained:trace-" + strings.SplitN(ev.bad, ":", 2)[0] + ":RunUntil", fmt.Sprintf("trace line %d %q written before the instruction at $%06x: %s | %s", i, ev.text, ev.pc, ev.bad, desc())
 		}
-		n, _ := w.twin.CPU.Step()
-		if n < 1 {
+		if w.twin.GetPC() != ev.pc {
+			w.skipped = true
+			return "unexplained:trace-line-out-of-step", fmt.Sprintf("trace line %d %q stands at $%06x, the %d-th instruction to execute is at $%06x | %s", i, ev.text, ev.pc, i, w.twin.GetPC(), desc())
+		}
+		before = c12Snapshot(w.twin)
+		if n, _ := w.twin.CPU.Step(); n < 1 {
+			w.skipped = true
 			return "", ""
 		}
-		consumed += uint64(n)
 	}
-	if i != len(lines) {
-		return "unexplained:trace-extra-lines", fmt.Sprintf("trace has %d lines for %d instructions about to execute | %s", len(lines), i, desc())
+	if after := c12Snapshot(w.twin); final != after && final != before {
+		w.skipped = true
+		return "unexplained:trace-line-count", fmt.Sprintf("the trace has %d lines, but the logged run ended in a state that is neither the one after %d instructions nor the one after %d: %v | %s", len(lines), len(lines), len(lines)-1, final, desc())
 	}
+	// (if the last announced instruction was not executed, the twin is one instruction ahead: the alphabet's
+	// instructions write WRAM only, which every scenario clears)
 	return "", ""
+}
+
+func c14EvString(e c14Event) string {
+	if e.line {
+		return fmt.Sprintf("the line %q for $%06x", e.text, e.pc)
+	}
+	return fmt.Sprintf("the fetch at $%06x", e.pc)
 }
 
 func replayC14(raw json.RawMessage) (string, error) {
@@ -523,7 +663,7 @@ func replayC14(raw json.RawMessage) (string, error) {
 		}
 		sig, what := c14RunCheck(w, rr)
 		if sig == "" {
-			return "logged run equals the unlogged hand-stepped run and every trace line is truthful", nil
+			return "the logged run equals the unlogged run and every trace line is truthful when written", nil
 		}
 		return what, fmt.Errorf("%s", sig)
 	}
